@@ -439,7 +439,7 @@ def multi_config_oracle(w, when):
     ctx.check(s.dispatcher.ready_operations_filter is want_filter, "multi_env_keeps_config", lambda: f"{when}: ready_operations_filter is {s.dispatcher.ready_operations_filter}, constructed with {want_filter}", field="filter")
     ctx.check(s.use_padding == cfg["use_padding"], "multi_env_keeps_config", lambda: f"{when}: use_padding {s.use_padding} != {cfg['use_padding']}", field="use_padding")
     nodes, edges = graph_spec(w.jobs, cfg["builder"])
-    g = s.initial_job_shop_graph
+    g = s.job_shop_graph  # right after reset(): the episode's full graph
     ctx.check(len(g.nodes) == len(nodes) and g.graph.number_of_edges() == len(edges), "multi_env_keeps_config",
               lambda: f"{when}: episode graph has {len(g.nodes)} nodes / {g.graph.number_of_edges()} edges, builder {cfg['builder']} gives {len(nodes)} / {len(edges)}", field="graph_initializer")
     want_cols = []
